@@ -3,7 +3,7 @@
 # usage: tools/mutant.sh <name> <patchfile> <check-id>[,<check-id>...] [extra ./check args]
 # The worktree and its build directory are removed afterwards.
 set -u
-NAME="$1"; PATCH="$2"; CHECKS="$3"; shift 3
+NAME="$1"; PATCH="$(cd "$(dirname "$2")" && pwd)/$(basename "$2")"; CHECKS="$3"; shift 3
 WT="/tmp/wt-$NAME"
 git -C /repo worktree remove --force "$WT" >/dev/null 2>&1
 git -C /repo worktree add --detach "$WT" HEAD >/dev/null 2>&1 || { echo "worktree failed"; exit 2; }
